@@ -17,7 +17,7 @@ func init() {
 				"ok(oidc.CheckSignature(_, $assertion, $payload, $r0, nil, $ks))",
 				"(def($ks, $v.keySet) && nonnil($v.keySet)) || def($ks, &jwtProfileKeySet{storage: $v.Storage, clientID: $r0.Issuer})",
 			}},
-		{ID: "E8.assertion.default-subject-check", Fn: "op.newJWTProfileVerifier", P: []string{"storage", "keySet"}, Kind: "ret any", Pat: "ret(&JWTProfileVerifier{CheckSubject: op.SubjectIsIssuer, Storage: $storage, keySet: $keySet})", Max: 1, Only: true},
+		{ID: "E8.assertion.default-subject-check", Fn: "op.newJWTProfileVerifier", P: []string{"storage", "keySet", "issuer", "maxAgeIAT", "offset"}, Kind: "ret any", Pat: "ret(&JWTProfileVerifier{Verifier: oidc.Verifier{Issuer: $issuer, MaxAgeIAT: $maxAgeIAT, Offset: $offset}, CheckSubject: op.SubjectIsIssuer, Storage: $storage, keySet: $keySet})", Max: 1, Only: true},
 		{ID: "E1.assertion.subject-is-issuer.accept", Fn: "op.SubjectIsIssuer", P: []string{"request"}, Kind: "ret ok", Req: []string{"eq($request.Issuer, $request.Subject)"}},
 		{ID: "E1.assertion.subject-is-issuer.reject", Fn: "op.SubjectIsIssuer", P: []string{"request"}, Kind: "ret fail", Req: []string{"neq($request.Issuer, $request.Subject)"}},
 		{ID: "E8.assertion.client-is-issuer", Fn: "op.ClientJWTAuth", P: []string{"ctx", "ca", "verifier"}, Kind: "ret ok", Max: 1,
